@@ -252,6 +252,7 @@ def unit_loops(S):
                 c.assume(call.outputs[pidx].scalar() == call.operands[pidx].scalar() + 1)  # callee contract of step (C06 add + step/adds-exactly-one)
             ctx.callee_contracts["STEP#"] = hook
             tag = f"{algo_name}.{which}"
+            S.default_replay = native_loop_count_replay(algo_name, which)
             try:
                 with extract.patched((AbstractOffPolicyAlgorithm, "step", _step_stub_factory(st_struct))):
                     fin = run(ctx, lambda a, e, p, s, kk: getattr(a, which)(e, p, s, cb, kk), algo, env_in, pol_in, st, k)
@@ -287,6 +288,7 @@ def unit_loops(S):
 
 
 def unit_initial(S):
+    S.default_replay = native_loop_count_replay("DQN", "collect_learning_starts")
     S.under_contract(F_INIT)
     (C,) = symbolic_dims("C")
     ctx = Ctx()
@@ -307,6 +309,7 @@ def unit_initial(S):
 def unit_reset(S):
     """reset(): per-environment step states each with its own buffer of capacity buffer_size // num_envs, then
     collect_learning_starts on every environment before the first update (num_envs lanes, pointwise)."""
+    S.default_replay = native_loop_count_replay("DQN", "collect_learning_starts")
     S.under_contract(F_RESET)
     for n_envs in (1, 3):
         for algo_name, mk in (("DQN", lambda n: DQN(num_envs=n, buffer_size=12, learning_starts=5, batch_size=2)),):
